@@ -17,7 +17,7 @@ const feeExpr = "new(uint256.Int).Mul(p0.Tx.GasPrice, uint256.NewInt(p0.Tx.Gas))
 // on every path to a success return.
 func (w *World) guardProtectsSuccess(fn *ssa.Function, match func(string) bool) (*Guard, bool) {
 	for _, g := range w.Guards(fn) {
-		if !match(g.Cond) {
+		if !match(g.Cond) && !match(g.CondI) {
 			continue
 		}
 		ok := true
